@@ -12,6 +12,7 @@ def families(tier):
     yield "file-start variants (BOM, BOM+CRLF, shebang, inner attribute) x bodies x eol x style", spaces.file_start_variants()
     yield "statement-kind tuples: 2..%d statements of 7 kinds x directives in one file x style" % (3 if tier == "thorough" else 2), spaces.statement_kind_tuples(3 if tier == "thorough" else 2)
     yield "cross-feature product: directive x target x key-values x eol x layout x second statement on the line x position x style", spaces.cross_feature_product()
+    yield "far positions: column / line number at 255..257, 65535..65537, 200000", spaces.far_positions()
     yield "size-boundary sweep: file size and insertion offset within 3 of 2^9..2^17", spaces.size_boundary_sweep()
     yield "odd characters (NUL, lone CR, VT, FF, NEL, LS, PS, LRM, ZWSP, DEL, NBSP, combining) at 7 places", spaces.odd_characters()
     yield "C13 structured ref states (default layout)", spaces.c13_default_layout(tier)
